@@ -15,7 +15,9 @@ CLAIMS = {
          "indexing, slicing, unwrap and unreachable site of lexer, parser, CST walk is an explicit Panic value) and never run out of the model's fuel; every "
          "Error::InvalidJson range is inside the input, start<=end, on UTF-8 character boundaries and its fragment is the input at that range (also for from_sources, "
          "is_superset_checked, and for every configuration of the planned fixes F2/F3); lexer spans are consecutive and faithful; the parser's flat CST is "
-         "well-formed; both tree-level inference paths never panic and the value path never fails; the value path enters each value once. Correspondence ties "
+         "well-formed; both tree-level inference paths never panic and the value path never fails; the value path enters each value once. RECURSION DEPTH is proved bounded for every input "
+         "(C05_parse_depth_bound: at most 772 nested parser frames; C05_walk_depth_bound: at most 515 nested walk frames; C05_from_str_depth_bound; C05_lexer_nesting_bound: the lexer "
+         "never pushes more than 256 open brackets; C05_cst_is_tree; value path: jdepth+1) through depth-instrumented twins proved equal to the model functions. Correspondence ties "
          "lexer+parser+walk+API to /repo on the malformed stream (CST compared node by node with spans). Runtime part (stack, time, allocator) validated by running: "
          "100000 brackets, multi-MB strings, 1.5 MB objects under a 60 s hang guard, serde_json values to depth 127, hook call counter = node count.", "6/C05"),
  "C07": ('Proved for ALL texts: any two RFC 8259 texts of depth <= 256 with the same document tree get the same result (same_tree_same_result); every rendering of a tree (all whitespace forms incl. bare CR / CRLF, number forms, escapes, raw non-ASCII, true/false) parses to infer_text of the tree (parse_render, keys_ok); member order and repetition count are irrelevant at tree and text level. Correspondence: 12k metamorphic pairs + 6k renderer cases + very long arrays / wide objects on the implementation.', "6/C07"),
@@ -50,10 +52,7 @@ CLAIMS = {
          "for all wf a, b), per-key object equation, array equation, scalar-kind pairs give exactly the OneOf of the two, plus the from_sources corollaries. "
          "Correspondence: merger on all 103041 level-1 pairs and random related deep pairs in both orders, from_sources on pairs and wrapped pairs; oracle: "
          "laws re-evaluated on the implementation, order-insensitivity by witness documents validated by Sem.mem.", "6/C08"),
- "C09": ("Theorems: add_twice (merger (merger a s) s = merger a s for EVERY well-formed accumulated shape a and every OneOf-free s without an Array<Null> node), "
-         "hence from_sources(h+[d]*(k+1)) = from_sources(h+[d]*k) for all k once d is the last source; repetitions never remove documents; a witness shows the hypothesis "
-         "cannot be dropped for arbitrary a. PARTIAL: the general clause (d anywhere in h; meaning unchanged) is decided by correspondence + oracle "
-         "(thousands of histories with d at random positions: syntactic stabilisation, constant Display length, meaning equality by validated witnesses).", "6/C09"),
+ "C09": ("The property in full is a THEOREM (C09_readd): for EVERY source sequence h that infers and EVERY d in h (any position, no side condition) there is one shape m1 with from_sources(h+[d]*(k+1)) = m1 for all k — the shape stops changing after at most one re-addition — and m1 admits exactly the documents from_sources(h) admits (Sem.mem); proved via an absorption invariant preserved by merger. Corollaries in the property's wording (C09_readd_meaning, C09_readd_stable, C09_readd_ok), text-level C09_text_readd, tightness witness (C09_readd_changes_once), and: when the merged shape is OneOf-free nothing changes at all. The pairwise add_twice for ARBITRARY accumulated shapes keeps the hypothesis no_null_array, with a witness that it is needed there. Correspondence + oracle: thousands of histories with d at random positions; an exhaustive model/implementation search over 16M histories found no counterexample (NOTES-c09.md).", "6/C09"),
  "C10": ("Six theorems prove reflexivity, optional widening, null-in-optional and the similar laws for ALL well-formed shapes; model tied to /repo by "
          "all 103041 level-1 pairs plus random deep related pairs; statements re-evaluated on the implementation's own answers.", "6/C10"),
  "C13": ("Theorems (Properties/C13.v): for EVERY shape in the decidable class good_names (emitted definition names pairwise distinct, snake-cased member names legal and distinct, variant names distinct, no nested optional array, tuples <= 12 wide) the generated items form a well-formed module "
@@ -72,10 +71,9 @@ CLAIMS = {
 }
 PARTIAL = {
  "C04": "The theorem needs Forall scalar s (model characters are unbounded naturals; a Rust &str only holds scalars: witness C04_scalar_needed). The tie model <-> implementation is the executed correspondence. ",
- "C05": "PARTIAL BY NATURE: stack depth, wall time and allocations are runtime facts outside the model; they are validated by running big inputs under a hang guard. Trusted additionally: the logos DFA semantics as modelled in Model/Lexer.v and the transliteration of the lelwel parser in Model/Parser.v, both tied to /repo by token/CST correspondence. ",
+ "C05": "PARTIAL BY NATURE: the NUMBER of nested frames is proved bounded for all inputs, but bytes per frame (hence actual stack use), wall time and the allocator are runtime facts outside the model; they are validated by running big inputs under a hang guard. Trusted additionally: the logos DFA semantics as modelled in Model/Lexer.v and the transliteration of the lelwel parser in Model/Parser.v, both tied to /repo by token/CST correspondence. ",
  "C07": "The tie model <-> implementation is the executed correspondence; names spelled with an escape re-read as the decoded name (keys_ok excludes them by definition). ",
- "C12": "Partial by nature: allocator, stack and wall-clock are runtime; the theorems bound call counts, allocations are measured.", "C03": "Partial: the theorem covers exactly the complement of the known class KF2 (merged shape OneOf-free); inside KF2 the property is refuted by witness.", "C09": "Partial: the theorem covers the pairwise core and the 'd is the last source' case; semantic absorption for d in the middle of h is not a theorem.",
- "C13": "Partial: 'wf_module implies rustc accepts' is validated on rustc batches, not proved; codegen / convert_case / checksum are modelled (printable-ASCII member names) and validated by correspondence. ",
+ "C12": "Partial by nature: allocator, stack and wall-clock are runtime; the theorems bound call counts, allocations are measured.", "C03": "Partial: the theorem covers exactly the complement of the known class KF2 (merged shape OneOf-free); inside KF2 the property is refuted by witness.", "C13": "Partial: 'wf_module implies rustc accepts' is validated on rustc batches, not proved; codegen / convert_case / checksum are modelled (printable-ASCII member names) and validated by correspondence. ",
  "C14": "Partial: the item parser applied to the real text is Python (validated against the model's item list on every case). ",
  "C15": "Partial: serde_derive / serde_json are external - modelled (Model/Gen.v deser/reser) and validated by compile-and-run batches in the thorough tier; modules are judged with the header defect F12 neutralised (as written none compiles). ",
  "C16": "Partial: determinism of the real code is a run-time observation (two runs, two processes); the text-level behaviour of json_shape 0.5.1 enters compile_json_m as a function argument. ",
